@@ -96,10 +96,21 @@ def fmt_idx(v):
         i = j + 1
     return ','.join(out)
 
-def spell(rng, p):
-    """another spelling of the same name: every file system here folds case (a user prefix or directory part is kept)"""
-    if rng.random() < 0.25:
+def spell(rng, p, fs=None, invalid_ok=True):
+    """another spelling of the same name: every file system here folds case (a user prefix or directory part is kept); CP/M user
+    numbers can be written 0, 00, +0; and spellings that name nothing (a blank before the dot on FAT, a second colon on CP/M)"""
+    r = rng.random()
+    if r < 0.25:
         return p.lower() if rng.random() < 0.7 else ''.join(c.lower() if rng.random() < 0.5 else c for c in p)
+    if fs and fs.startswith('cpm') and r < 0.40:
+        u, n = p.split(':', 1) if ':' in p else ('0', p)
+        return rng.choice(['0' + u, '+' + u, '00' + u, u]) + ':' + n + (rng.choice(['', '', '', ':X']) if invalid_ok else '')
+    if fs == 'fat' and invalid_ok and r < 0.35 and '.' in p.rsplit('/', 1)[-1]:
+        head, last = (p.rsplit('/', 1) + [None])[:2] if '/' in p else (None, p)
+        b, e = last.split('.', 1)
+        if len(b) < 8:
+            last = b + ' .' + e
+        return (head + '/' + last) if head is not None else last
     return p
 
 
@@ -125,7 +136,7 @@ def history(rng, fs, nops, lock_heavy=False, valid_only=False):
             live.append(p)
         elif r < 0.57:
             p = rng.choice(live)
-            ops.append(f"D~{spell(rng, p)}")
+            ops.append(f"D~{spell(rng, p, fs, not valid_only)}")
             if rng.random() < 0.9:
                 live.remove(p)
         elif r < 0.65:
@@ -133,12 +144,12 @@ def history(rng, fs, nops, lock_heavy=False, valid_only=False):
             nn = gen_name(rng, cfg, fs)
             if ':' in p:
                 nn = p.split(':')[0] + ':' + nn     # CP/M: stay in the same user area
-            ops.append(f"R~{spell(rng, p)}~{spell(rng, nn)}")
+            ops.append(f"R~{spell(rng, p, fs, not valid_only)}~{spell(rng, nn, fs, not valid_only)}")
             live.remove(p)
             live.append((p.rsplit('/', 1)[0] + '/' + nn) if '/' in p else nn)
         elif r < (0.85 if lock_heavy else 0.72):
             p = rng.choice(live)
-            ops.append(f"{rng.choice('LLU')}~{spell(rng, p)}")
+            ops.append(f"{rng.choice('LLU')}~{spell(rng, p, fs, not valid_only)}")
         elif r < 0.75 and fs in ('dos33', 'dos32', 'prodos'):
             p = rng.choice(live)
             ty = rng.choice({'dos33': ['txt', 'bin', 'atok', 'itok'], 'dos32': ['txt', 'bin', 'itok'], 'prodos': ['txt', 'bin', 'atok', 'sys']}[fs])
@@ -152,7 +163,7 @@ def history(rng, fs, nops, lock_heavy=False, valid_only=False):
             # intentionally refused: duplicate name / rename onto existing
             p = rng.choice(live)
             if rng.random() < 0.5 or len(live) < 2:
-                ops.append(f"P~{spell(rng, p)}~0~U~~")
+                ops.append(f"P~{spell(rng, p, fs, not valid_only)}~0~U~~")
             else:
                 q = rng.choice(live)
                 tgt = q.rsplit('/', 1)[-1]
@@ -160,9 +171,19 @@ def history(rng, fs, nops, lock_heavy=False, valid_only=False):
                     # CP/M: rename onto a name of the same user area (must be refused) or the same name in another area (must be accepted)
                     u = p.split(':')[0] if ':' in p else '0'
                     tgt = u + ':' + tgt.split(':')[-1]
-                ops.append(f"R~{p}~{spell(rng, tgt)}")
-        elif r < 0.94:
+                ops.append(f"R~{p}~{spell(rng, tgt, fs, not valid_only)}")
+        elif r < 0.91:
             ops.append(rng.choice([f"D~NOSUCH{rng.randrange(100)}", f"R~NOSUCH{rng.randrange(100)}~ZZ", f"L~NOSUCH{rng.randrange(100)}"]))
+        elif r < 0.94:
+            # patterns and the dot entries of directories are not files: lock, unlock, rename, retype and delete must leave everything alone
+            p = rng.choice(live)
+            base = p.rsplit('/', 1)[-1]
+            pat = rng.choice([base[:1] + '*', '*', base[:1] + '?' * max(1, len(base) - 1), '*.*', 'ZZ*'])
+            if cfg['dirs'] and len(dirs) > 1 and rng.random() < 0.4:
+                pat = rng.choice(dirs[1:]) + rng.choice(['/..', '/.'])
+            elif '/' in p:
+                pat = p.rsplit('/', 1)[0] + '/' + pat
+            ops.append(rng.choice([f"L~{pat}", f"U~{pat}", f"R~{pat}~ZZZ", f"D~{pat}"]))
         elif valid_only:
             continue
         else:
